@@ -4,7 +4,7 @@
    hook-exported key sets of the two decoder tables). *)
 From V.lib Require Import Base.
 From V.c04 Require Import C04Model C04AsmModel C04ContainerProofs.
-From V.c03 Require Import C03Model C03Spec C03Registry C03Proofs C03CanonProofs C03LeafModel C03LeafProofs C03LeafBoxProofs C03LeafInstProofs C03StsdProofs C03VseProofs C03LeafTruncProofs C03LeafEncProofs C03DelegateProofs C03DelegateExtProofs C03FactsDefs C03Facts C03ClassProofs.
+From V.c03 Require Import C03Model C03Spec C03Registry C03Proofs C03CanonProofs C03LeafModel C03LeafProofs C03LeafBoxProofs C03LeafInstProofs C03StsdProofs C03VseProofs C03LeafTruncProofs C03LeafEncProofs C03DelegateProofs C03DelegateExtProofs C03FactsDefs C03Facts C03ClassProofs C03SencPassModel C03SencPassProofs.
 Open Scope N_scope.
 
 (* Encode to an io.Writer and EncodeSW to a slice writer: identical bytes or both fail, for every container tree and
@@ -378,6 +378,36 @@ Theorem C03_enc_delegate_size_needed : exists size cap out, enc_delegating_w siz
 Proof. exact enc_delegate_size_needed. Qed.
 Print Assumptions C03_enc_delegate_size_needed.
 
+(* ---- third round: the per-moof second senc pass INSIDE the two file loops, each transcribed from its own Go text
+   (mp4/file.go DecodeFile -> traf_body_r / moof_pass_r / decode_file_xr; mp4/boxsr.go DecodeFileSR -> traf_body_sr / moof_pass_sr /
+   decode_file_xsr; the shared callees ContainsSencBox, IsEncrypted / GetSinf, ParseReadSenc, ParseReadBox are the C04 models).
+   For every list of top-level boxes (C04 shape + size; a moov carries its tracks - tkhd id, clear / encrypted entry, tenc IV size -,
+   a moof its trafs - tfhd id, saio, sbgp / sgpd, senc-like children) the two loops return the same File (grouping, StartPos) AND
+   the same state of the picked senc of every traf of every moof, or both fail. *)
+Theorem C03_file_agree_senc : forall o boxes, o_ism o = false -> o_lazy o = false ->
+  decode_file_xsr o boxes = decode_file_xr o boxes.
+Proof. exact file_agree_senc. Qed.
+Print Assumptions C03_file_agree_senc.
+
+(* the pass itself: same function on both paths; it visits EVERY traf, each judged on its own (clear track: untouched; encrypted or no
+   moov: ParseReadSenc with the tenc / default IV size; no tfhd under a moov: error), and fails exactly at the first failing traf *)
+Theorem C03_senc_pass_agree : forall fm start trafs,
+  moof_pass_sr fm start trafs = moof_pass_r fm start trafs /\
+  (forall l, moof_pass_r fm start trafs = Ok l <-> Forall2 (fun tr r => traf_spec fm start tr = Ok r) trafs l) /\
+  (moof_pass_r fm start trafs = Err <->
+   exists pre tr post rs, trafs = pre ++ tr :: post /\ Forall2 (fun t r => traf_spec fm start t = Ok r) pre rs /\ traf_spec fm start tr = Err).
+Proof. exact (fun fm s trafs => conj (moof_passes_agree fm s trafs) (conj (senc_pass_all_trafs fm s trafs) (senc_pass_first_error fm s trafs))). Qed.
+Print Assumptions C03_senc_pass_agree.
+
+(* a `break` where `continue` was meant, on ONE path (a clear traf ends the SR loop): the theorem is false of that text - the traf of
+   the encrypted track behind a clear one keeps its unparsed senc on the SR path only *)
+Theorem C03_senc_pass_break_differs :
+  moof_pass_r (Some brk_moov) 0 brk_trafs = Ok [None; Some (1, 0, 8)] /\
+  moof_pass_sr (Some brk_moov) 0 brk_trafs = Ok [None; Some (1, 0, 8)] /\
+  moof_pass_sr_break (Some brk_moov) 0 brk_trafs = Ok [None; None].
+Proof. exact senc_pass_break_differs. Qed.
+Print Assumptions C03_senc_pass_break_differs.
+
 (* ---- non-vacuity ---- *)
 Example ex_tree : ebox :=
   ECont [109;111;111;102]%N 24 [ECont [116;114;97;102]%N 8 []; ELeaf (Ok [0;0;0;8;102;114;101;101]%N) (Ok [0;0;0;8;102;114;101;101]%N)].
@@ -530,3 +560,14 @@ Example ex_facts_nontrivial : (60 <=? count_cov CovDelegateSound c03_decoder_fac
   /\ (15 <=? count_cov CovFraming c03_decoder_facts)%nat = true /\ (1 <=? count_cov CovExplored c03_decoder_facts)%nat = true
   /\ existsb (fun f => negb (dec_ok (mkdec (df_key f) (df_s f) (df_s f) CSeparate false (df_relative f)))) c03_decoder_facts = true.
 Proof. vm_compute. repeat split; reflexivity. Qed.
+
+(* ftyp, moov{trak 1 clear, trak 2 encrypted (tenc IV 8)}, moof{traf 1: unparsed senc, traf 2: unparsed senc}, mdat: one segment, one
+   fragment; the clear traf's senc stays as read, the encrypted one's is parsed (1 IV) - by both loops *)
+Example ex_file_senc :
+  decode_file_xsr (mkO true false false false)
+    [mkXTop TFtyp 24 [] []; mkXTop (TMoov (MoovChain 5 0)) 600 brk_moov []; mkXTop (TMoof []) 200 [] brk_trafs; mkXTop (TMdat 8) 16 [] []]
+  = Ok (mkF true (Some (MoovChain 5 0)) None (Some [ICFtyp; ICMoov]) [] None false
+            [mkSeg false 0 [mkFrag (Some []) true [FCMdat; FCMoof []] 624] 624]
+            [TMdat 8; TMoof []; TMoov (MoovChain 5 0); TFtyp] true,
+        [[None; Some (1, 0, 8)]]).
+Proof. vm_compute. reflexivity. Qed.
